@@ -1,6 +1,117 @@
-//! Shared helpers for harnesses.
+//! Shared helpers for harnesses: raw-integer access, exact wide arithmetic used by oracles.
+//! Everything here is written from the mathematical definition, in a different shape from
+//! the library code (sign/magnitude + 256-bit limbs instead of the library's shifts in i128).
+pub use core::cmp::Ordering;
+pub use substrate_fixed::traits::{Fixed, FixedSigned, FixedUnsigned, FromFixed, ToFixed};
 pub use substrate_fixed::types::extra::*;
 pub use substrate_fixed::{
     FixedI128, FixedI16, FixedI32, FixedI64, FixedI8, FixedU128, FixedU16, FixedU32, FixedU64,
     FixedU8, Wrapping,
 };
+
+/// Primitive integer with access to sign/magnitude and a symbolic value.
+pub trait Raw: Copy + PartialEq + PartialOrd + core::fmt::Debug {
+    const W: u32;
+    const SIGNED: bool;
+    fn any() -> Self;
+    /// (is strictly negative, |v| as u128)
+    fn neg_abs(self) -> (bool, u128);
+    /// two's complement image in 128 bits (sign-extended for signed types)
+    fn sext(self) -> u128;
+    /// truncating conversion from the low W bits of a u128
+    fn trunc(v: u128) -> Self;
+}
+
+macro_rules! raw_signed {
+    ($($t:ty),*) => {$(
+        impl Raw for $t {
+            const W: u32 = <$t>::BITS;
+            const SIGNED: bool = true;
+            #[inline(always)]
+            fn any() -> Self { kani::any() }
+            #[inline(always)]
+            fn neg_abs(self) -> (bool, u128) { (self < 0, self.unsigned_abs() as u128) }
+            #[inline(always)]
+            fn sext(self) -> u128 { self as i128 as u128 }
+            #[inline(always)]
+            fn trunc(v: u128) -> Self { v as $t }
+        }
+    )*};
+}
+macro_rules! raw_unsigned {
+    ($($t:ty),*) => {$(
+        impl Raw for $t {
+            const W: u32 = <$t>::BITS;
+            const SIGNED: bool = false;
+            #[inline(always)]
+            fn any() -> Self { kani::any() }
+            #[inline(always)]
+            fn neg_abs(self) -> (bool, u128) { (false, self as u128) }
+            #[inline(always)]
+            fn sext(self) -> u128 { self as u128 }
+            #[inline(always)]
+            fn trunc(v: u128) -> Self { v as $t }
+        }
+    )*};
+}
+raw_signed!(i8, i16, i32, i64, i128, isize);
+raw_unsigned!(u8, u16, u32, u64, u128, usize);
+
+/// Unsigned 256-bit value as (hi, lo).
+#[derive(Clone, Copy, PartialEq, Eq, Debug)]
+pub struct U256 {
+    pub hi: u128,
+    pub lo: u128,
+}
+
+impl U256 {
+    #[inline(always)]
+    pub fn from_u128(v: u128) -> U256 {
+        U256 { hi: 0, lo: v }
+    }
+    /// v * 2^s for 0 <= s <= 128 (exact: v < 2^128)
+    #[inline(always)]
+    pub fn shl_u128(v: u128, s: u32) -> U256 {
+        if s == 0 {
+            U256 { hi: 0, lo: v }
+        } else if s >= 128 {
+            U256 { hi: v, lo: 0 }
+        } else {
+            U256 { hi: v >> (128 - s), lo: v << s }
+        }
+    }
+    #[inline(always)]
+    pub fn cmp(self, o: U256) -> Ordering {
+        if self.hi != o.hi {
+            if self.hi < o.hi { Ordering::Less } else { Ordering::Greater }
+        } else if self.lo != o.lo {
+            if self.lo < o.lo { Ordering::Less } else { Ordering::Greater }
+        } else {
+            Ordering::Equal
+        }
+    }
+}
+
+/// Exact comparison of (-1)^an * aa * 2^-fa with (-1)^bn * ba * 2^-fb, fa, fb <= 128.
+#[inline(always)]
+pub fn cmp_exact(an: bool, aa: u128, fa: u32, bn: bool, ba: u128, fb: u32) -> Ordering {
+    let an = an && aa != 0;
+    let bn = bn && ba != 0;
+    if an != bn {
+        return if an { Ordering::Less } else { Ordering::Greater };
+    }
+    // same sign: compare magnitudes aa*2^fb vs ba*2^fa
+    let l = U256::shl_u128(aa, fb);
+    let r = U256::shl_u128(ba, fa);
+    let m = l.cmp(r);
+    if an { m.reverse() } else { m }
+}
+
+pub fn ord_code(o: Option<Ordering>) -> i8 {
+    match o {
+        None => 2,
+        Some(Ordering::Less) => -1,
+        Some(Ordering::Equal) => 0,
+        Some(Ordering::Greater) => 1,
+    }
+}
